@@ -107,7 +107,11 @@ def session(run, rng, seed, nm_list, quick, region='eu-test-1', host='s3.example
             # one transient 503 in the middle of a stream upload: the retry must re-send and re-sign the whole body
             if rec['method'] == 'PUT' and fails['n'] == 1:
                 fails['n'] = 2
-                return httpx.Response(503, content=b'slow down')
+                fails['k'] = fails.get('k', 0) + 1
+                if fails['k'] % 2:
+                    return httpx.Response(503, content=b'slow down')
+                # a failure without any HTTP response: the connection is reset after the body was read
+                return httpx.ReadError('connection reset by the fault script')
             return None
         fake.faults = fault
         for nm in nm_list:
